@@ -320,6 +320,12 @@ nextSegment:
 		// prefix chars in the stream (the parser extracts the raw data). In this
 		// case skip over them.
 		for ; segIndex < exprLen && expr[segIndex] != '_' && (expr[segIndex] < 'A' || expr[segIndex] > 'Z'); segIndex++ {
+			// A MultiNamePrefix is followed by a segment count; skip it as
+			// well so that a count in the 'A'-'Z' / '_' range (65-90, 95) is
+			// not mistaken for the first character of a name.
+			if expr[segIndex] == 0x2f {
+				segIndex++
+			}
 		}
 
 		if exprLen-segIndex < amlNameLen {
